@@ -59,8 +59,8 @@ func (impl Implementation) Dorg2r(m, n, k int, a []float64, lda int, tau []float
 		a[j*lda+j] = 1
 	}
 	for i := k - 1; i >= 0; i-- {
-		for i := range work {
-			work[i] = 0
+		for j := range work[:n] {
+			work[j] = 0
 		}
 		if i < n-1 {
 			a[i*lda+i] = 1
